@@ -70,6 +70,16 @@ def re_text(e, prec=0):
     if k == "|":
         t = re_text(e[1], 0) + "|" + re_text(e[2], 0)
         return "(?:" + t + ")" if prec > 0 else t
+    if k == "{":
+        # counted repetition e{lo,hi} (hi None = unbounded); the model is given the equivalent e^lo (e?)^(hi-lo) or e^lo e*
+        inner = re_text(e[3], 2)
+        if e[3][0] in "*+?e^${" or e[3][0] in ("*?", "+?", "??"):
+            inner = "(?:" + re_text(e[3], 0) + ")"
+        lo, hi = e[1], e[2]
+        return inner + ("{%d}" % lo if hi == lo else "{%d,}" % lo if hi is None else "{%d,%d}" % (lo, hi))
+    if k == "Q":
+        # \Q...\E quoting (e[2]: terminated or running to the end of the pattern); the model is given the literal
+        return "\\Q" + e[1].decode("latin1") + ("\\E" if e[2] else "")
     if k in ("*?", "+?", "??"):
         # lazy quantifier: same language as the greedy one (the model is given the greedy form), another preferred match
         return re_text((k[0], e[1]), prec) + "?"
@@ -88,6 +98,17 @@ def esc_cls(c):
 
 def re_enc(e):
     k = e[0]
+    if k == "{":
+        lo, hi, x = e[1], e[2], e[3]
+        parts = [x] * lo + ([("*", x)] if hi is None else [("?", x)] * (hi - lo))
+        if not parts:
+            return "e"
+        acc = parts[-1]
+        for q in reversed(parts[:-1]):
+            acc = ("&", q, acc)
+        return re_enc(acc)
+    if k == "Q":
+        return re_enc(lit_re(e[1]))
     if k == "c":
         return "c%02x" % e[1]
     if k in ".e^$":
@@ -111,7 +132,7 @@ REFPOOL = [b"refs/heads/main", b"refs/heads/master", b"refs/heads/feature/x", b"
            b"refs/pull/1/merge", b"refs/changes/12/3412/1", b"refs/changes/1/2/3", b"refs/notes/commits", b"refs/stash",
            b"refs/stash/x", b"refs/foo", b"refs/foo/bar", b"refs/foobar", b"refs/a", b"refs/abc", b"refs/tags/refs/heads",
            b"refs/heads/a", b"refs/tags/b", b"refs/heads/a$", b"refs/heads/main\xc2\xa0", b"refs/tags/v1\xe3\x80\x80", b"refs/foo\xc2\x85",
-           b"refs/heads/\xe2\x80\xa8a"]
+           b"refs/heads/\xe2\x80\xa8a", b"refs/heads/release/1.0", b"refs/heads/release-old", b"refs/heads/release.x", b"refs/heads/aa"]
 
 
 def gen_refs(rng):
@@ -235,6 +256,21 @@ def gen_re_refs(rng):
         if form == 4:
             return ("|", ("&", ("^",), lit_re(a)), lit_re(b"refs/heads/a$"))      # ends with an escaped dollar
         return ("&", ("^",), ("&", ("|", lit_re(a), lit_re(b)), ("$",)))
+    if rng.random() < 0.12:
+        # counted repetitions, alone (the pattern's only regexp syntax) and next to other syntax; quoting with \Q ... \E
+        form = rng.randrange(6)
+        if form == 0:
+            return ("&", lit_re(b"refs/heads/"), ("{", 1, 2, ("c", 97)))                        # refs/heads/a{1,2}
+        if form == 1:
+            return ("&", lit_re(b"refs/tags/v"), ("{", 1, None, ("[", False, [(48, 57)])))        # refs/tags/v[0-9]{1,}
+        if form == 2:
+            return ("&", lit_re(b"refs/foo"), ("{", 0, 1, lit_re(b"bar")))                         # refs/foo(?:bar){0,1}
+        if form == 3:
+            return ("&", ("Q", b"refs/heads/a$", True), ("e",))                                     # \Qrefs/heads/a$\E
+        if form == 4:
+            # (an unterminated \Q quotes to the end of the pattern: legal for Go's regexp, and then the LAST thing in the text)
+            return ("&", lit_re(b"refs/tags/"), ("Q", b"v1.0", rng.random() < 0.5))                 # refs/tags/\Qv1.0[\E]
+        return ("&", lit_re(b"refs/heads/"), ("{", 2, 2, (".",)))                                   # refs/heads/.{2}
     if rng.random() < 0.2:
         # the whole name matches, but the match a leftmost-first engine PREFERS is a proper prefix of it: an earlier
         # alternative that is a prefix of a later one, an optional tail written empty-first, a lazy quantifier at the end
@@ -274,6 +310,17 @@ def gen_options(rng, defs, refs, maxlen=4):
     """Returns (cli args, model option tokens)."""
     cli, toks = [], []
     groups = STD + [s for s, _ in defs]
+    if rng.random() < 0.08:
+        # consecutive prefixes of one polarity of which one is the other plus a byte that sorts below '/' ('-', '.', '+'):
+        # disjoint as rules, adjacent in byte order, with names of the form P/... sorting after both
+        pol = rng.random() < 0.6
+        base = rng.choice([b"refs/heads/release", b"refs/tags/v1", b"refs/foo"])
+        pair = [base, base + rng.choice([b"-old", b".0", b"+x", b"-"])]
+        if rng.random() < 0.5:
+            pair.reverse()
+        for pat in pair:
+            cli += ["--include" if pol else "--exclude", os.fsdecode(pat)]
+            toks.append(("+" if pol else "-") + "p:" + vlib.hx(pat))
     for _ in range(rng.choice([0, 1, 1, 2, 2, 3, maxlen])):
         k = rng.random()
         pol = rng.random() < 0.6
